@@ -56,26 +56,38 @@ static void judge_float(cs::Ctx& ctx, const std::string& lit, const numref::Lite
     return;
   }
   if (got != 0 && (got < 0) != L.neg) fail("wrong-sign");
+#if ARDUINOJSON_USE_DOUBLE
   long double rel = numref::significant_digits(L) > 7 ? 1e-13L : 1e-6L;
+  const long double HI = 1e300L, LO = 1e-300L, TINY = 5e-324L;
+  const long MAGHI = 302, MAGLO = -302;
+#else
+  // JsonFloat = float (row num01): the property's window and accuracy are stated for doubles; what
+  // remains decidable is the float analogue: +-inf / +-0 beyond [1e-37, 1e38], never a NaN nor a
+  // finite value of the wrong magnitude; inside the window the float path is observed to be good to
+  // about 1e-6 (".99999999" reads as 0.99999899), so 1e-5 is demanded
+  long double rel = 1e-5L;
+  const long double HI = 1e38L, LO = 1e-37L, TINY = 1.5e-45L;
+  const long MAGHI = 39, MAGLO = -46;
+#endif
   // strtold itself overflows/underflows only beyond 1e+-4900; decide magnitude class on the text
   long mag = 0;
   numref::decimal_magnitude(L, mag);
-  if (mag > 302) {  // certainly above 1e300
+  if (mag > MAGHI) {  // certainly above the window
     if (std::isinf(got)) return;
     if (mag < 4000 && fabsl(v - got) <= rel * av) return;
     fail("wrong-magnitude-large");
   }
-  if (mag < -302) {
+  if (mag < MAGLO) {
     if (got == 0) return;
-    if (mag > -4000 && fabsl(v - got) <= rel * av + 5e-324L) return;
+    if (mag > -4000 && fabsl(v - got) <= rel * av + TINY) return;
     fail("wrong-magnitude-small");
   }
-  if (av > 1e300L) {
+  if (av > HI) {
     if (std::isinf(got) || fabsl(v - got) <= rel * av) return;
     fail("wrong-magnitude-large");
   }
-  if (av < 1e-300L) {
-    if (got == 0 || fabsl(v - got) <= rel * av + 5e-324L) return;
+  if (av < LO) {
+    if (got == 0 || fabsl(v - got) <= rel * av + TINY) return;
     fail("wrong-magnitude-small");
   }
   if (!std::isfinite(got)) fail("infinite-in-range");
@@ -108,6 +120,8 @@ static void check_literal(cs::Ctx& ctx, const std::string& lit) {
   }
   // ---- through as<T>() on a string (any length), linked and copied storage
   for (int linked = 0; linked < 2; linked++) {
+    // a copied string is limited by the configured string length (capacity limit, C19); a linked one is not
+    if (!linked && lit.size() > (size_t)ArduinoJson::detail::StringNode::maxLength) continue;
     JsonDocument doc;
     if (linked) doc.set(lit.c_str());
     else doc.set(lit);
@@ -241,9 +255,13 @@ static std::string gen_int_literal(cs::Src& s) {
 }
 
 // decimal literal, 1..maxdigits digits, value decade swept over [1e-330,1e330]
-static std::string gen_decimal_literal(cs::Src& s, size_t maxdigits) {
+static std::string gen_decimal_literal(cs::Src& s, size_t maxdigits, size_t force_nd = 0) {
   static const unsigned wd[] = {5, 4, 3, 3, 2, 1};
   size_t nd;
+  if (force_nd) {
+    nd = force_nd;
+    maxdigits = force_nd;
+  } else
   switch (s.pick(wd)) {
     case 0: nd = 1 + (size_t)s.below(4); break;
     case 1: nd = 6 + (size_t)s.below(4); break;
@@ -306,8 +324,9 @@ static std::string gen_decimal_literal(cs::Src& s, size_t maxdigits) {
 static void run_case(cs::Src& s, cs::Ctx& ctx) {
   ctx.evaluations++;
   static const unsigned w[] = {4, 6, 3, 3, 2};
+  static const unsigned w_lit[] = {4, 6, 0, 0, 0};
   JsonDocument doc;
-  switch (s.pick(w)) {
+  switch (ctx.param_u("only_literals", 0) ? s.pick(w_lit) : s.pick(w)) {
     case 0: {
       std::string lit = gen_int_literal(s);
       ctx.current_rendering = "integer literal: " + lit;
@@ -319,8 +338,18 @@ static void run_case(cs::Src& s, cs::Ctx& ctx) {
     }
     case 1: {
       bool longlit = s.chance(1, 5);
-      std::string lit = gen_decimal_literal(s, longlit ? 3000 : 40);
-      ctx.current_rendering = "decimal literal: " + lit;
+      size_t force_nd = 0;
+      if (s.chance(1, 2500)) {  // digit counts around the 15/16-bit counter widths ("any length" on a string)
+        static const unsigned wn[] = {3, 3, 2};
+        switch (s.pick(wn)) {
+          case 0: force_nd = 32755 + (size_t)s.below(30); break;
+          case 1: force_nd = 65525 + (size_t)s.below(30); break;
+          default: force_nd = 3000 + (size_t)s.below(70000);
+        }
+        ctx.label("decimal-literal-of-tens-of-thousands-of-digits");
+      }
+      std::string lit = gen_decimal_literal(s, longlit ? 3000 : 40, force_nd);
+      ctx.current_rendering = "decimal literal: " + (lit.size() > 4000 ? lit.substr(0, 200) + "...(" + std::to_string(lit.size()) + " characters)..." + lit.substr(lit.size() - 40) : lit);
       check_literal(ctx, lit);
       ctx.label(lit.size() <= 63 ? "decimal-literal<=63" : "decimal-literal>63(string only)");
       numref::Literal L;
